@@ -16,7 +16,8 @@
 EXTENDS Integers, Sequences, FiniteSets, TLC
 
 CONSTANTS Procs, Keys, Bodies,      \* Bodies: body texts; Size(b) their length in bytes
-          MaxBytes, Exp, MaxClock, FetchUnderLock
+          MaxBytes, Exp, MaxClock, FetchUnderLock,
+          AnyIdx                     \* see HeapPut
 Size(b) == CASE b = "s" -> 1 [] b = "mm" -> 2 [] b = "llllll" -> 6 [] b = "xxxxxxxxxxxx" -> 12 [] OTHER -> 3
 
 VARIABLES clock, meta, body, heap, stored, mutex, pc, loc, out, last, corrupt
@@ -121,7 +122,10 @@ EvDelBody(p) == /\ pc[p] = "evdelbody" /\ body' = [body EXCEPT ![loc[p].ek] = Ni
 
 UsedIdx == {h.idx : h \in heap}
 HeapPut(p) == /\ pc[p] = "heapput"
-              /\ \E i \in 0..Cardinality(heap) : i \notin UsedIdx
+              \* the tracking index is an internal name: any index that is not in use (the code re-uses the indices of
+              \* removed entries in its own order; never more than one per key are alive).  AnyIdx = FALSE picks the smallest one:
+              \* a symmetry reduction for the design check, where the name cannot matter; trace validation uses TRUE
+              /\ \E i \in 0..Cardinality(Keys) : i \notin UsedIdx /\ (AnyIdx \/ \A j \in 0..(i - 1) : j \in UsedIdx)
                     /\ heap' = heap \cup {[key |-> loc[p].key, exp |-> loc[p].ts + Exp, bytes |-> Need(p), idx |-> i]}
                     /\ loc' = [loc EXCEPT ![p].hidx = i]
               /\ stored' = stored + Need(p) /\ U(p, "setbody")
